@@ -13,6 +13,30 @@ random tie-breaks cannot cause alarms):
             Buffer.new_consecutive constructors and .free() on a server whose
             options (bus / buffer counts, reserved numbers, io channels,
             max_logins) and client id vary per case.
+  faults    (round 7, vf/c16_faults.py) client objects whose construction or
+            freeing FAILS HALF WAY, followed by continued allocation: every
+            Buffer constructor spelling (__init__, frames=None, new_cue,
+            new_read, new_read_channel, new_consecutive with the fault at any
+            member) with an automatic number or a number named by the caller
+            (bufnum= the start / the interior of a live range, a free number,
+            a foreign number) whose completion function raises, returns or is
+            a message the OSC encoder refuses, or whose argument cannot be
+            sent; Buffer(alloc=False) followed by a failing alloc / alloc_read
+            / alloc_read_channel and a retry; frees whose completion function
+            raises, also of one member of a consecutive group; objects made
+            for an explicit number (AudioBus/ControlBus index=, sub_bus,
+            new_from, Buffer bufnum=, new_consecutive bufnum=) and their free
+            when the number is not the start of a live range;
+            Buffer.free_all.  Oracle: the failed operation handed nothing to
+            the caller, so the allocator's live set must be the model's -
+            except that ONE range of the requested length which a failed
+            AUTOMATIC constructor took itself may be kept (it is then live in
+            the model: never handed out again) or returned; a caller's number
+            is never the failed object's to release; an object the caller
+            still holds is intact or fully freed.  The history then continues
+            (allocations are judged against the same model, so a number
+            released behind a live object's back is also seen when it is
+            handed out twice).
   nodeid    NodeIDAllocator(user, first) and Server._next_node_id / Group /
             Synth ids: distinct within the id window (first ids close to 2**26
             so the wrap-around is reached), inside the client's 26-bit range,
@@ -21,6 +45,8 @@ random tie-breaks cannot cause alarms):
 """
 
 from vf.common import iter_cases, case_rng, h64, split, short_tb, tb_sites
+from vf.c16_faults import (gen_fault, pick_number, adopt_kept, SINGLE_CTORS,
+                           DEFERRED_ALLOCS)
 
 LEVEL = 'exploration'
 RULE = ("seeded random histories (1-500 operations) of alloc(n) / free / double "
@@ -28,7 +54,11 @@ RULE = ("seeded random histories (1-500 operations) of alloc(n) / free / double 
         "sizes 1-256, reserved offsets 0-8 and client ids 0-31 (address offset = "
         "size*client [+ io offset]), on the allocator directly and through "
         "AudioBus/ControlBus/Buffer constructors with max_logins 1-8; node-id "
-        "runs of up to 3 windows with the first id close to 2**26.  A history "
+        "runs of up to 3 windows with the first id close to 2**26.  About 16 % "
+        "of the object operations are faults (failing constructors of every "
+        "spelling with automatic / explicit live, interior, free or foreign "
+        "numbers, failing deferred allocs and frees, explicit-number objects, "
+        "free_all) after which the history continues.  A history "
         "is non-trivial when it frees a live range that has a free neighbour "
         "(coalescing needed) and allocates successfully afterwards, or (node "
         "ids) wraps at least once; distinct = hash of configuration + operations")
@@ -41,6 +71,14 @@ ASSUMPTIONS = [
     "a client's node id range is [client*2**26 + initial_node_id, "
     "(client+1)*2**26) (26 bits per client)",
     "allocator tie-breaks use main's random generator, re-seeded per case",
+    "a number that a failed constructor took from the allocator itself may be "
+    "kept by the allocator (leak, counted in object_failed_constructor_numbers_"
+    "kept_by_allocator) or returned: the statement is about ranges handed out, "
+    "both are accepted; a number named by the caller is never the failed "
+    "object's to release",
+    "the alias of the START of a live range (Bus(index=start).free()) is a "
+    "free the caller asked for and not exercised; members of a consecutive "
+    "group are freed as a group (documented restriction)",
 ]
 MIN_COUNTERS = {
     'quick': {'allocs_judged': 100_000, 'none_answers_judged': 10_000,
@@ -52,6 +90,24 @@ MIN_COUNTERS = {
               'object_histories_reported_max_logins_differs': 500,
               'outside_partition_frees': 5000, 'object_outside_partition_frees': 300,
               'object_frees_whose_send_fails': 300,
+              'object_failed_ctors': 5000,
+              'object_failed_ctors_explicit_number_live': 2000,
+              'object_failed_ctors_explicit_number_live_interior': 150,
+              'object_failed_ctors_explicit_number_free': 800,
+              'object_failed_ctors_explicit_number_foreign': 500,
+              'object_failed_ctors_automatic_number': 1000,
+              'object_failed_ctors_via_new_consecutive': 1000,
+              'object_failed_ctors_via_new_cue': 400,
+              'object_failed_ctors_via_new_read': 400,
+              'object_failed_ctors_via_new_read_channel': 400,
+              'object_failed_ctors_via_init_frames_none': 400,
+              'object_failed_deferred_allocs': 1000,
+              'object_frees_whose_completion_function_fails': 200,
+              'object_group_frees_whose_send_fails': 800,
+              'object_explicit_number_ctors': 2000,
+              'object_explicit_number_frees': 500,
+              'object_free_all_calls': 100,
+              'object_allocs_after_failed_operation': 10_000,
               'model_selftest': 1},
     'thorough': {'allocs_judged': 5_000_000, 'none_answers_judged': 500_000,
                  'none_answers_offset_zero': 100_000,
@@ -64,6 +120,24 @@ MIN_COUNTERS = {
                  'outside_partition_frees': 200_000,
                  'object_outside_partition_frees': 10_000,
                  'object_frees_whose_send_fails': 10_000,
+                 'object_failed_ctors': 200_000,
+                 'object_failed_ctors_explicit_number_live': 80_000,
+                 'object_failed_ctors_explicit_number_live_interior': 5000,
+                 'object_failed_ctors_explicit_number_free': 30_000,
+                 'object_failed_ctors_explicit_number_foreign': 20_000,
+                 'object_failed_ctors_automatic_number': 40_000,
+                 'object_failed_ctors_via_new_consecutive': 40_000,
+                 'object_failed_ctors_via_new_cue': 15_000,
+                 'object_failed_ctors_via_new_read': 15_000,
+                 'object_failed_ctors_via_new_read_channel': 15_000,
+                 'object_failed_ctors_via_init_frames_none': 15_000,
+                 'object_failed_deferred_allocs': 40_000,
+                 'object_frees_whose_completion_function_fails': 8000,
+                 'object_group_frees_whose_send_fails': 30_000,
+                 'object_explicit_number_ctors': 80_000,
+                 'object_explicit_number_frees': 20_000,
+                 'object_free_all_calls': 4000,
+                 'object_allocs_after_failed_operation': 400_000,
                  'model_selftest': 1},
 }
 
@@ -361,6 +435,256 @@ def gen_server_config(rng):
     return ml, opts, cid, reported
 
 
+class _Ctx:
+    def __init__(self, **kw):
+        self.__dict__.update(kw)
+
+
+def _blocks(ctx, kd):
+    return {(b.start, b.size) for b in ctx.allocators[kd].blocks()}
+
+
+def _no_space(e):
+    s = str(e)
+    return (type(e) is Exception and (s.startswith('No more buffer numbers')
+                                      or s.startswith('No block of'))) or \
+        (type(e).__name__ == 'BusException' and 'failed to get' in s)
+
+
+def _judge_after(ctx, k, kd, opname, cls, auto_n=None, explicit=None):
+    """After an operation that handed nothing to the caller: numbers the
+    operation kept for itself are adopted, everything else must be unchanged.
+    Returns a `bad` tuple (k, mech, detail, kind, class) or None."""
+    got = _blocks(ctx, kd)
+    kept = adopt_kept(ctx.models[kd], got, auto_n, explicit)
+    if kept:
+        ctx.acc.count(f'object_{opname.replace("-", "_")}_numbers_kept_by_allocator', kept)
+    ctx.stats[kd].blocks += 1
+    v = ctx.models[kd].judge_blocks(got)
+    if not v:
+        return (k, f'{opname}/{v.mech}', f'{kd}: {v.detail}', kd, cls)
+    for other in ctx.lay:
+        if other != kd:
+            ctx.stats[other].blocks += 1
+            v = ctx.models[other].judge_blocks(_blocks(ctx, other))
+            if not v:
+                return (k, f'{opname}/{v.mech}', f'{other}: {v.detail}', other, cls)
+    return None
+
+
+def _op_failed_ctor(ctx, k):
+    """A Buffer constructor (every spelling) whose completion function /
+    message / argument fails after the number is known, with an automatic
+    number or a number named by the caller (live, interior, free, foreign)."""
+    rng, srv, Buffer = ctx.rng, ctx.srv, ctx.Buffer
+    m, st = ctx.models['buffer'], ctx.stats['buffer']
+    group = rng.random() < 0.25
+    n = rng.randint(2, 4) if group else 1
+    picked = pick_number(rng, m, n) if rng.random() < 0.75 else None
+    cls, num = ('explicit-number-' + picked[0], picked[1]) if picked else \
+        ('automatic-number', None)
+    at = rng.randrange(n)
+    fkind, comp, at = gen_fault(rng, at)
+    if group:
+        ctor = 'new_consecutive'
+        call = lambda: Buffer.new_consecutive(n, 8, 1, srv, num, comp)
+    else:
+        ctor = rng.choice(SINGLE_CTORS)
+        if ctor == 'init':
+            call = lambda: Buffer(8, 1, srv, num, comp)
+        elif ctor == 'init-frames-none':
+            call = lambda: Buffer(None, 1, srv, num, comp if rng.random() < 0.5 else None)
+        elif ctor == 'new_cue':
+            call = lambda: Buffer.new_cue('vf16.wav', 0, 64, 1, srv, num, comp)
+        elif ctor == 'new_read':
+            call = lambda: Buffer.new_read(object(), 0, -1, srv, num)
+        else:
+            chans = rng.choice([None, [0, object()]])
+            call = lambda: Buffer.new_read_channel('vf16.wav', 0, -1, chans, srv, num)
+    ctx.ops.append(('buffer-ctor-fails', ctor, cls, num, n))
+    res = None
+    try:
+        res = call()
+    except Exception as e:
+        if num is None and _no_space(e):
+            # the number could not even be taken: an ordinary "no space"
+            v = m.judge_alloc(n, None)
+            st.allocs += 1
+            st.nones += 1
+            if not v:
+                return (k, f'alloc/{v.mech}', v.detail, 'buffer',
+                        _offset_class(ctx.lay['buffer'][2]))
+            return _judge_after(ctx, k, 'buffer', 'failed-constructor', cls)
+    if res is not None:
+        # not refused (an implementation may swallow the fault): then it is
+        # an ordinary construction
+        ctx.acc.count('object_faulty_ctors_not_refused')
+        objs = res if isinstance(res, list) else [res]
+        if num is None:
+            ans = objs[0].bufnum
+            v = m.judge_alloc(n, ans)
+            st.allocs += 1
+            if not v:
+                return (k, f'alloc/{v.mech}', v.detail, 'buffer',
+                        _offset_class(ctx.lay['buffer'][2]))
+            ctx.live.append(('buffer', ans, n, objs))
+            return _judge_after(ctx, k, 'buffer', 'constructor', cls)
+        return _judge_after(ctx, k, 'buffer', 'constructor', cls, explicit=(num, n))
+    ctx.acc.count('object_failed_ctors')
+    ctx.acc.count('object_failed_ctors_' + cls.replace('-', '_'))
+    ctx.acc.count('object_failed_ctors_via_' + ctor.replace('-', '_'))
+    ctx.acc.count('object_failed_ctors_fault_' + fkind.replace('-', '_'))
+    ctx.faulted = True
+    if num is None:
+        return _judge_after(ctx, k, 'buffer', 'failed-constructor', cls, auto_n=n)
+    return _judge_after(ctx, k, 'buffer', 'failed-constructor', cls, explicit=(num, n))
+
+
+def _op_failed_deferred_alloc(ctx, k):
+    """Buffer(alloc=False) takes its number, the later alloc() / alloc_read()
+    / alloc_read_channel() fails: the caller still holds the object, which
+    must be intact or fully freed; it is used (alloc again, free) later."""
+    rng, srv, Buffer = ctx.rng, ctx.srv, ctx.Buffer
+    m, st = ctx.models['buffer'], ctx.stats['buffer']
+    how = rng.choice(DEFERRED_ALLOCS)
+    ctx.ops.append(('buffer-deferred-' + how + '-fails',))
+    try:
+        o = Buffer(8, 1, srv, alloc=False)
+        ans = o.bufnum
+    except Exception as e:
+        if not _no_space(e):
+            raise
+        o = ans = None
+    v = m.judge_alloc(1, ans)
+    st.allocs += 1
+    ctx.ops[-1] = ctx.ops[-1] + (ans,)
+    if not v:
+        return (k, f'alloc/{v.mech}', v.detail, 'buffer',
+                _offset_class(ctx.lay['buffer'][2]))
+    if o is None:
+        st.nones += 1
+        return None
+    st.note_alloc_ok()
+    comp = gen_fault(rng)[1]
+    raised = None
+    try:
+        if how == 'alloc':
+            o.alloc(comp)
+        elif how == 'alloc_read':
+            o.alloc_read(object(), 0, -1, comp if rng.random() < 0.5 else None)
+        else:
+            o.alloc_read_channel('vf16.wav', 0, -1,
+                                 rng.choice([None, [0, object()]]))
+    except Exception as e:       # noqa: any refusal
+        raised = e
+    if raised is None:
+        ctx.acc.count('object_faulty_ctors_not_refused')
+    else:
+        ctx.acc.count('object_failed_deferred_allocs')
+        ctx.faulted = True
+    released = ans not in {a for a, _ in _blocks(ctx, 'buffer')}
+    cleared = o.bufnum is None
+    if released != cleared:
+        return (k, 'failed-alloc/leaves-buffer-half-freed',
+                f'after {type(raised).__name__} in {how}(): number {ans} '
+                f'{"returned to" if released else "still in"} the allocator, '
+                f'object.bufnum = {o.bufnum}', 'buffer', 'automatic-number')
+    if released:
+        m.free(ans)
+        ctx.dead.append(('buffer', o))
+    else:
+        if o.bufnum != ans:
+            return (k, 'failed-alloc/object-changes-number',
+                    f'{ans} -> {o.bufnum}', 'buffer', 'automatic-number')
+        if rng.random() < 0.5:
+            o.alloc()                        # the retry, without the fault
+        ctx.live.append(('buffer', ans, 1, [o]))
+    return _judge_after(ctx, k, 'buffer', 'failed-alloc', 'automatic-number')
+
+
+def _op_alias(ctx, k):
+    """An object made for a number the caller names (Bus index=, Buffer
+    bufnum=, Bus.new_from / sub_bus of a live bus): nothing is allocated and
+    nothing may be released - also not when the alias of a number that is not
+    the start of a live range is freed again."""
+    rng, srv = ctx.rng, ctx.srv
+    kd = rng.choice(['audio', 'control', 'buffer'])
+    m = ctx.models[kd]
+    owners = [e for e in ctx.live if e[0] == kd and e[2] > 1]
+    obj = None
+    if kd != 'buffer' and owners and rng.random() < 0.4:
+        _, start, n0, objs = rng.choice(owners)
+        off = rng.randrange(n0)
+        n = rng.randint(1, n0 - off)
+        num = start + off
+        cls = 'explicit-number-' + ('live' if off == 0 else 'live-interior')
+        ctx.ops.append((kd + '-sub-bus', num, n))
+        make = (lambda: objs[0].sub_bus(off, n)) if rng.random() < 0.5 else \
+            (lambda: type(objs[0]).new_from(objs[0], off, n))
+    else:
+        n = rng.choice([1, 1, 2, 3, rng.randint(1, max(1, m.size))])
+        picked = pick_number(rng, m, n)
+        if picked is None:
+            return None
+        cls, num = 'explicit-number-' + picked[0], picked[1]
+        ctx.ops.append((kd + '-explicit-number', cls, num, n))
+        if kd == 'audio':
+            make = lambda: ctx.AudioBus(n, srv, num)
+        elif kd == 'control':
+            make = lambda: ctx.ControlBus(n, srv, num)
+        elif rng.random() < 0.5:
+            n = 1
+            al = rng.random() < 0.5
+            make = lambda: ctx.Buffer(8, 1, srv, num, alloc=al)
+        else:
+            n = rng.randint(1, 3)
+            make = lambda: ctx.Buffer.new_consecutive(n, 8, 1, srv, num)[0]
+    try:
+        obj = make()
+    except Exception:       # noqa: refusing a caller's number is allowed ...
+        # ... but it is a constructor that failed for a number that is not
+        # its own: nothing may have been released
+        ctx.acc.count('object_explicit_number_ctors_refused')
+        return _judge_after(ctx, k, kd, 'failed-constructor', cls)
+    got = obj.bufnum if kd == 'buffer' else obj.index
+    if got != num:
+        return (k, 'explicit-number/object-has-another-number',
+                f'{kd}: asked {num}, object has {got}', kd, cls)
+    ctx.acc.count('object_explicit_number_ctors')
+    ctx.acc.count('object_explicit_number_ctors_' + cls[16:].replace('-', '_'))
+    res = _judge_after(ctx, k, kd, 'explicit-number', cls, explicit=(num, n))
+    if res or num in m.live or rng.random() < 0.5:
+        return res
+    # the alias of a number that is not the start of a live range is freed:
+    # an interior / free / foreign address, the live set stays as it is
+    ctx.ops.append((kd + '-explicit-number-free', num))
+    ctx.stats[kd].ufrees += 1
+    try:
+        obj.free()
+    except IndexError:
+        if cls != 'explicit-number-foreign':
+            raise
+        ctx.stats[kd].ofree_index_errors += 1
+    ctx.acc.count('object_explicit_number_frees')
+    return _judge_after(ctx, k, kd, 'explicit-number-free', cls)
+
+
+def _op_free_all(ctx, k):
+    """Buffer.free_all(server): every buffer number of this client is free
+    again (also numbers a failed constructor kept)."""
+    m = ctx.models['buffer']
+    ctx.ops.append(('buffer-free-all', len(m.live)))
+    ctx.Buffer.free_all(ctx.srv)
+    for a in sorted(m.live):
+        ctx.stats['buffer'].note_free(m, a)
+        ctx.stats['buffer'].frees += 1
+        m.free(a)
+    # the objects are stale now (their numbers may get new owners): dropped
+    ctx.live[:] = [e for e in ctx.live if e[0] != 'buffer']
+    ctx.acc.count('object_free_all_calls')
+    return _judge_after(ctx, k, 'buffer', 'free-all', 'all-buffers')
+
+
 def run_objects(spec, acc):
     from sc3.base.main import main
     from sc3.base.netaddr import NetAddr
@@ -409,6 +733,10 @@ def run_objects(spec, acc):
         reqs = {k: gen_requests(rng, lay[k][0]) for k in lay}
         length = rng.choice([rng.randint(1, 12), rng.randint(8, 60),
                              rng.randint(40, 160)])
+        ctx = _Ctx(rng=rng, srv=srv, lay=lay, models=models, stats=stats,
+                   allocators=allocators, live=live, dead=dead, ops=ops,
+                   acc=acc, Buffer=Buffer, AudioBus=AudioBus,
+                   ControlBus=ControlBus, faulted=False)
         for k in range(length):
             r = rng.random() * (prof['alloc'] + prof['free'] + prof['dfree'])
             kind = None
@@ -435,6 +763,23 @@ def run_objects(spec, acc):
                         kind = kd
                         break
                     continue
+            fr = rng.random()
+            if fr < 0.158:
+                # operations that fail half way / name their number
+                # themselves, then the history goes on (vf/c16_faults.py)
+                fop = (_op_failed_ctor if fr < 0.09 else
+                       _op_failed_deferred_alloc if fr < 0.115 else
+                       _op_alias if fr < 0.155 else _op_free_all)
+                try:
+                    res = fop(ctx, k)
+                except Exception as e:       # noqa: the harness' own check failed
+                    res = (k, f'{fop.__name__[4:].replace("_", "-")}/raises/'
+                           f'{_site_key(e)}', short_tb(e), 'buffer', 'unexpected')
+                if res:
+                    bad = res[:3] + (res[4],)
+                    kind = res[3]
+                    break
+                continue
             try:
                 if r < prof['alloc'] or not live:
                     kind = rng.choice(['control', 'audio', 'buffer', 'buffer'])
@@ -480,6 +825,8 @@ def run_objects(spec, acc):
                     elif v:
                         st.note_alloc_ok()
                         live.append((kind, ans, n, objs))
+                        if ctx.faulted:
+                            acc.count('object_allocs_after_failed_operation')
                     if not v:
                         bad = (k, f'alloc/{v.mech}', v.detail)
                         break
@@ -496,7 +843,10 @@ def run_objects(spec, acc):
                         o = objs[0]
                         comp = rng.choice([['/b_query', 2 ** 70],
                                            ['/b_query', object()],
-                                           ['/b_set', start, 0, 1e400, {}]])
+                                           ['/b_set', start, 0, 1e400, {}],
+                                           gen_fault(rng)[1], gen_fault(rng)[1]])
+                        if callable(comp):
+                            acc.count('object_frees_whose_completion_function_fails')
                         ops.append(('buffer-free-send-fails', start))
                         st.failed_send_frees += 1
                         raised = None
@@ -530,8 +880,39 @@ def run_objects(spec, acc):
                         st.note_free(m, start)
                         st.frees += 1
                         ops.append((kind + '-free', start))
-                        for o in objs:    # a consecutive group is freed as a group
-                            o.free()
+                        fj = None
+                        if kind == 'buffer' and len(objs) > 1 and rng.random() < 0.3:
+                            # the free of ONE member of a consecutive group
+                            # fails; the caller retries it at once (the group
+                            # is still freed as a group)
+                            fj = rng.randrange(len(objs))
+                            comp = gen_fault(rng)[1]
+                            ops[-1] = ('buffer-group-free-member-fails', start, fj)
+                            acc.count('object_group_frees_whose_send_fails')
+                        for j, o in enumerate(objs):    # a consecutive group is freed as a group
+                            if j != fj:
+                                o.free()
+                                continue
+                            try:
+                                o.free(comp)
+                            except Exception:       # noqa: any refusal
+                                pass
+                            else:
+                                acc.count('object_failing_sends_not_refused')
+                            if j == 0:
+                                released = start not in {
+                                    b.start for b in allocators['buffer'].blocks()}
+                                if released != (o.bufnum is None):
+                                    bad = (k, 'free/failed-send-leaves-buffer-half-freed',
+                                           f'group member 0: number {start} '
+                                           f'{"returned to" if released else "still in"} '
+                                           f'the allocator, object.bufnum = {o.bufnum}',
+                                           'send-raises')
+                                    break
+                            if o.bufnum is not None:
+                                o.free()
+                        if bad:
+                            break
                         m.free(start)
                         dead.append((kind, objs[0]))
                 else:
@@ -691,8 +1072,8 @@ def run_nodeid(spec, acc):
 
 
 def run_shard(spec, acc):
-    from vf import model_alloc
-    if model_alloc.selftest():
+    from vf import model_alloc, c16_faults
+    if model_alloc.selftest() and c16_faults.selftest():
         acc.count('model_selftest')
     kind = spec['shard']['kind']
     if kind == 'direct':
